@@ -141,6 +141,161 @@ fn run_mix(cx: &mut CaseCx, case: &Value) {
   cx.sample(json!({"t": t, "symbols": sym.len(), "rejected": n_err, "other_measurement_recovered": n_other_ok}));
 }
 
+
+/// Reports of NEIGHBOURING contexts never complete a sub-threshold collection: t-1 shares of A plus
+/// shares of the same measurement under every epoch a canonicalisation could merge with A's (and of
+/// every neighbouring measurement under A's epoch, and of neighbouring thresholds).
+fn run_neighbour_contexts(cx: &mut CaseCx, case: &Value) {
+  let t = case["t"].as_u64().unwrap() as u32;
+  let bases: Vec<Vec<u8>> = vec![b"epoch".to_vec(), "caf\u{e9} ".as_bytes().to_vec(), vec![0x80], vec![0xff, 0xfe], vec![0, 0, 0, 254], vec![0xc3, 0x28], vec![]];
+  let base = bases[case["b"].as_u64().unwrap() as usize % bases.len()].clone();
+  let meas = b"https://example.com/a".to_vec();
+  for as_epoch in [true, false] {
+    let (m_a, e_a) = if as_epoch { (meas.clone(), base.clone()) } else { (base.clone(), b"e".to_vec()) };
+    let a = match make_sharing(cx, "A", &m_a, &e_a, t, t as usize - 1, 1) {
+      Some(a) => a,
+      None => return,
+    };
+    let mut nbs: Vec<(String, Vec<u8>, Vec<u8>, u32)> = super::c04::neighbours(&base).into_iter().map(|(how, n)| if as_epoch { (format!("epoch: {}", how), m_a.clone(), n, t) } else { (format!("measurement: {}", how), n, e_a.clone(), t) }).collect();
+    for t2 in [t + 1, t + 256, t + 65536, t << 8] {
+      nbs.push((format!("threshold {} instead of {}", t2, t), m_a.clone(), e_a.clone(), t2));
+    }
+    for (how, m_n, e_n, t_n) in nbs {
+      let rnd = local_randomness(&m_n, &e_n, t_n);
+      // k shares of the neighbour complete t-k shares of A, k = 1..t-1, in both orders
+      for k in 1..t as usize {
+        let mut foreign = vec![];
+        for i in 0..k {
+          getrandom::verif::set_group(500 + i as u32);
+          match gen_report(&m_n, &e_n, t_n, &rnd, &None) {
+            Ok(r) => foreign.push(r.share),
+            Err(_) => break,
+          }
+        }
+        if foreign.len() != k {
+          continue;
+        }
+        let own: Vec<sta_rs::Share> = a.shares.iter().take(t as usize - k).cloned().collect();
+        for order in 0..2 {
+          let coll: Vec<sta_rs::Share> = if order == 0 { own.iter().chain(foreign.iter()).cloned().collect() } else { foreign.iter().chain(own.iter()).cloned().collect() };
+          cx.eval();
+          cx.count("states", 1);
+          cx.count("transitions", 1);
+          cx.nontrivial(fnv_str(&format!("{}|{}|{}|{}|{}", case, as_epoch, how, k, order)));
+          let d = || json!({"t": t, "A": {"measurement": hexs(&m_a), "epoch": hexs(&e_a)}, "neighbour": {"measurement": hexs(&m_n), "epoch": hexs(&e_n), "threshold": t_n}, "relation": how, "shares_of_A": t as usize - k, "shares_of_neighbour": k});
+          match recover_msg(&coll) {
+            Ok(Ok(m)) => {
+              // the neighbour alone reaches its own threshold only if k >= t_n
+              if m == a.secret {
+                cx.viol("C02/secret-from-sub-threshold/neighbour-context", format!("{} share(s) of A plus {} share(s) reported under a DIFFERENT context ({}) recover A's secret: neither context reached its threshold", t as usize - k, k, how), d());
+                return;
+              } else if (k as u32) < t_n {
+                cx.viol("C02/ok-without-any-threshold/neighbour-context", format!("recovery succeeds on {} share(s) of A plus {} share(s) of a different context ({}) although no context reaches its threshold", t as usize - k, k, how), d());
+                return;
+              }
+            }
+            Ok(Err(_)) => cx.count("rejected", 1),
+            Err(p) => {
+              cx.viol("C02/recover-panicked", p, d());
+              return;
+            }
+          }
+        }
+      }
+    }
+  }
+  cx.outcome(format!("t={} rejected", t));
+  cx.sample(json!({"t": t, "base": hexs(&base)}));
+}
+
+
+/// Sharks level (the distinct-share counting in front of the interpolation): t-1 genuine shares padded with
+/// anything that sits on an evaluation point ALREADY present never pass the count - exact copies, copies
+/// whose y was altered, shares of another secret / another dealer at the same points - and, at the report
+/// level, the same paddings never recover.
+fn run_point_padding(cx: &mut CaseCx, case: &Value) {
+  use core::convert::TryFrom;
+  use star_sharks::{Share, Sharks};
+  let t = case["t"].as_u64().unwrap() as u32;
+  let tu = t as usize;
+  let secret = rm::le24(&BigUint::from(0x5ec2e7u64)).to_vec();
+  let other_secret = rm::le24(&BigUint::from(0xabcdefu64)).to_vec();
+  cx.entropy(7);
+  let own: Vec<Share> = match Sharks(t).dealer(&secret) {
+    Ok(d) => d.take(tu - 1).collect(),
+    Err(_) => return,
+  };
+  let foreign: Vec<Share> = match Sharks(t).dealer(&other_secret) {
+    Ok(d) => d.take(tu - 1).collect(),
+    Err(_) => return,
+  };
+  if own.iter().zip(foreign.iter()).any(|(a, b)| a.x != b.x) {
+    cx.count("dealers_do_not_share_points", 1);
+  }
+  // padding alphabet: for every own share - exact copy, y altered in the lowest / highest byte, the other dealer's share at that point
+  let mut pads: Vec<(String, Share)> = vec![];
+  for (i, sh) in own.iter().enumerate() {
+    pads.push((format!("exact copy of share {}", i), sh.clone()));
+    let enc = Vec::<u8>::from(sh);
+    for (what, at, bit) in [("lowest", 24usize, 1u8), ("middle", 32, 0x10), ("second highest", 39, 0x80)] {
+      let mut b = enc.clone();
+      b[at] ^= bit;
+      if let Ok(f) = Share::try_from(b.as_slice()) {
+        pads.push((format!("copy of share {} with its y altered ({} byte)", i, what), f));
+      }
+    }
+    if i < foreign.len() && foreign[i].x == sh.x {
+      pads.push((format!("another secret's share at the point of share {}", i), foreign[i].clone()));
+    }
+  }
+  let np = pads.len();
+  let mut colls: Vec<(Vec<usize>, usize)> = vec![]; // (pad indices, placement)
+  for a in 0..np {
+    for place in 0..3 {
+      colls.push((vec![a], place));
+    }
+    for b in 0..np {
+      colls.push((vec![a, b], 0));
+      colls.push((vec![a, b], 1));
+    }
+  }
+  for (pi, place) in colls {
+    let padv: Vec<Share> = pi.iter().map(|&k| pads[k].1.clone()).collect();
+    let coll: Vec<Share> = match place {
+      0 => own.iter().cloned().chain(padv.iter().cloned()).collect(),
+      1 => padv.iter().cloned().chain(own.iter().cloned()).collect(),
+      _ => {
+        let mut v = own.clone();
+        v.insert(v.len() / 2, padv[0].clone());
+        v
+      }
+    };
+    cx.eval();
+    cx.count("states", 1);
+    cx.count("transitions", 1);
+    cx.nontrivial(fnv_str(&format!("{}|{:?}|{}", t, pi, place)));
+    let names: Vec<&str> = pi.iter().map(|&k| pads[k].0.as_str()).collect();
+    let sharks = Sharks(t);
+    match guard(|| sharks.recover(&coll).map_err(|e| e.to_string())) {
+      Ok(Err(_)) => cx.count("rejected", 1),
+      Ok(Ok(v)) => {
+        cx.viol(
+          if v == secret { "C02/secret-from-sub-threshold/point-padding" } else { "C02/ok-without-any-threshold/point-padding" },
+          format!("Sharks({}).recover accepts {} genuine shares padded with [{}]: the collection holds only {} distinct evaluation points", t, tu - 1, names.join("; "), tu - 1),
+          json!({"t": t, "padding": names, "placement": place, "returned_the_secret": v == secret}),
+        );
+        return;
+      }
+      Err(p) => {
+        cx.viol("C02/recover-panicked", p, json!({"t": t, "padding": names}));
+        return;
+      }
+    }
+  }
+  cx.outcome(format!("t={} rejected", t));
+  cx.sample(json!({"t": t, "paddings": np}));
+}
+
 /// forged threshold field on sub-threshold collections of A's own shares
 fn run_forged(cx: &mut CaseCx, case: &Value) {
   let t = case["t"].as_u64().unwrap() as u32;
@@ -603,6 +758,28 @@ pub fn spec() -> PropSpec {
         gen: gen_mix,
         run: run_mix,
         min_counts: &[("rejected", 1000)],
+      },
+      Check {
+        name: "neighbour-contexts",
+        rule: "t in {2,3}; A = t-1 honest shares under 7 base strings (text, accented+padded, invalid UTF-8, binary counter, empty) used as epoch and as measurement; for EVERY neighbouring context (each single-bit flip, appended / prepended bytes, dropped bytes, case folding, BOM, U+FFFD, lossy UTF-8, NFC/NFD, trimming; thresholds t+1, t+256, t+65536, t<<8) k = 1..t-1 shares of the neighbour complete t-k shares of A, both orders: never A's secret, never Ok",
+        gen: |_| {
+          let mut v = vec![];
+          for t in [2u64, 3] {
+            for b in 0..7u64 {
+              v.push(json!({"t": t, "b": b}));
+            }
+          }
+          v
+        },
+        run: run_neighbour_contexts,
+        min_counts: &[("rejected", 3000)],
+      },
+      Check {
+        name: "point-padding",
+        rule: "sharks level, t in {2,3,4,5,9}: t-1 genuine shares padded with every 1- and 2-element combination of {exact copy, copy with y altered in the lowest / a middle / the top byte, another secret's share at the same point} of each share, appended / prepended / inserted: Sharks::recover must be Err (only t-1 distinct evaluation points)",
+        gen: |_| [2u64, 3, 4, 5, 9].iter().map(|t| json!({"t": t})).collect(),
+        run: run_point_padding,
+        min_counts: &[("rejected", 500)],
       },
       Check {
         name: "forged-thresholds",
